@@ -839,6 +839,8 @@ def r9(ctx, retsets):
 
 def check(ctx):
     retsets = flow.return_sets(ctx.pdb)
+    from specs import C14 as _C14
+    _C14.report_interface(ctx.pdb)
     r1(ctx, retsets)
     r2_r3(ctx)
     r2_object(ctx)
